@@ -770,7 +770,31 @@ func (f *FuncCtx) assertTo(st *State, v Term, to types.Type, commaOk bool, site 
 			okc = "(not (= " + v.S + " 0))"
 		} else {
 			fn := fmt.Sprintf("implements_%d", f.w.typeID(to))
+			firstUse := !f.declSet[fn]
 			f.declareFun(fn, []string{SInt}, SBool)
+			if firstUse {
+				// the repository types that implement the interface do so (facts from the type checker; other types stay open)
+				if iface, ok := to.Underlying().(*types.Interface); ok {
+					for _, pk := range f.w.targets {
+						sc := pk.Types.Scope()
+						for _, n := range sc.Names() {
+							tn, ok := sc.Lookup(n).(*types.TypeName)
+							if !ok || tn.IsAlias() {
+								continue
+							}
+							if _, isI := tn.Type().Underlying().(*types.Interface); isI {
+								continue
+							}
+							for _, t := range []types.Type{types.NewPointer(tn.Type()), tn.Type()} {
+								if types.Implements(t, iface) {
+									f.decls = append(f.decls, fmt.Sprintf("(assert (%s %d))", fn, f.w.typeID(t)))
+									break
+								}
+							}
+						}
+					}
+				}
+			}
 			okc = "(and (not (= " + v.S + " 0)) (" + fn + " (dyntype " + v.S + ")))"
 		}
 		res = Term{S: v.S, Sort: SInt, GoT: to}
